@@ -280,10 +280,12 @@ Print Assumptions C10_graph_to_mol_selection.
 
 (** The graphs rsmi_to_graph builds (drop_non_aam=True, use_index_as_atom_map=True) from an RDKit molecule with element
     symbols in [A-Za-z*]+, RDKit bond types and distinct map numbers ([rdmol_ok], a contract about RDKit output monitored per
-    case) are molecule graphs: the premises [mol_ok] of C10_smart_roundtrip hold for them. *)
+    case) are molecule graphs without standard_order: the premises [mol_ok] of C10_smart_roundtrip and [mol_ok], [std_free] of
+    C10_two_routes_full hold for them. *)
 Theorem C10_rsmi_graph_mol_ok :
-  forall m : rmol, rdmol_ok m = true -> mol_ok (mol_to_graph m true true) = true.
-Proof. exact rsmi_graph_mol_ok. Qed.
+  forall m : rmol, rdmol_ok m = true ->
+    mol_ok (mol_to_graph m true true) = true /\ std_free (mol_to_graph m true true) = true.
+Proof. intros m H. split; [exact (rsmi_graph_mol_ok m H)|exact (rsmi_graph_std_free m H)]. Qed.
 Print Assumptions C10_rsmi_graph_mol_ok.
 
 (** KNOWN FINDING graph_to_smi:preserve_atom_maps:bare-hydrogen-dropped (code kept as it is): with a non-empty preserve
